@@ -619,7 +619,9 @@ class ExcelModel:
         return books
 
     def compile(self, inputs, outputs):
+        solution = self.dsp.solution  # Shrinking dispatches on the model:
         dsp = self.dsp.shrink_dsp(inputs=inputs, outputs=outputs)
+        self.dsp.solution = solution  # its last solution stays (see write).
         if sh.SELF in dsp.default_values:  # Ranges read unlisted blank cells
             dsp.set_default_value(sh.SELF, dsp)  # from the run they are in.
         inp, stack = set(inputs), list(inputs)
